@@ -5,6 +5,7 @@ import (
 	"encoding/binary"
 	"fmt"
 	"io"
+	"strconv"
 	"strings"
 
 	"github.com/keybase/saltpack"
@@ -127,9 +128,17 @@ func init() {
 		if got == "" {
 			got = "_"
 		}
-		m := strings.Join(h.rn.Call("open_events", c.A["vd"], c.A["keys"], c.A["senders"], hx(input)), " ")
-		if m != got {
-			fs = append(fs, Failure{Kind: "correspondence", Key: "key-trace-open", Desc: fmt.Sprintf("model %.300s | impl %.300s", m, got)})
+		if c.A["vd"] != "all" { // (the model's validators are the library's two; an all-admitting application validator is oracle-only)
+			m := strings.Join(h.rn.Call("open_events", c.A["vd"], c.A["keys"], c.A["senders"], hx(input)), " ")
+			if m != got {
+				// a header in a MessagePack shape the model does not give a meaning to (Unmodelled, e.g. an array
+				// where go-codec leniently reads a byte string) has no model trace; the predicate below still runs
+				if mo := strings.Join(h.rn.Call("open", c.A["vd"], c.A["keys"], c.A["senders"], hx(input)), " "); strings.Contains(mo, "Unmodelled") {
+					h.res.Unmodelled++
+				} else {
+					fs = append(fs, Failure{Kind: "correspondence", Key: "key-trace-open", Desc: fmt.Sprintf("model %.300s | impl %.300s", m, got)})
+				}
+			}
 		}
 		if bad := tracePredicate(log.events); bad != "" {
 			fs = append(fs, Failure{Kind: "oracle", Key: "long-term-key-abused", Desc: bad + " (mutation " + c.A["mut"] + ")"})
@@ -154,7 +163,11 @@ func init() {
 		}
 		m := strings.Join(h.rn.Call("sc_open_events", c.A["keys"], hx(input)), " ")
 		if m != got {
-			fs = append(fs, Failure{Kind: "correspondence", Key: "key-trace-sc-open", Desc: fmt.Sprintf("model %.300s | impl %.300s", m, got)})
+			if mo := strings.Join(h.rn.Call("sc_open", c.A["keys"], c.A["signers"], "none", hx(input)), " "); strings.Contains(mo, "Unmodelled") {
+				h.res.Unmodelled++
+			} else {
+				fs = append(fs, Failure{Kind: "correspondence", Key: "key-trace-sc-open", Desc: fmt.Sprintf("model %.300s | impl %.300s", m, got)})
+			}
 		}
 		if bad := tracePredicate(log.events); bad != "" {
 			fs = append(fs, Failure{Kind: "oracle", Key: "long-term-key-abused", Desc: bad + " (mutation " + c.A["mut"] + ")"})
@@ -354,7 +367,7 @@ func init() {
 	}}
 
 	campaigns["C12"] = campaign{
-		rule: "cases: the harness supplies BoxSecretKey / BoxPrecomputedSharedKey / SigningSecretKey wrappers that record every call (operation, peer, nonce, message). Receivers: genuine, mutated, spliced and insider-forged encryption and signcryption messages (as C02/C04) opened with recording keyrings of 1-3 keys, visible and hidden recipients; senders: Sign/SignDetached/SigncryptSeal/Seal with recording long-term keys, all versions, lengths 0..3000 and 1 MiB+1. The recorded call sequence must equal the model's trace (coq/model/KeyTrace.v) and satisfy the predicate directly: every Unbox nonce is the V1 constant or 'saltpack_recipsb'+index, every Box message is 32 zero bytes, every signed string is a domain-separation string plus fixed-length hash material.",
+		rule: "cases: the harness supplies BoxSecretKey / BoxPrecomputedSharedKey / SigningSecretKey wrappers that record every call (operation, peer, nonce, message). Receivers: genuine, mutated, spliced and insider-forged encryption and signcryption messages (as C02/C04) opened with recording keyrings of 1-3 keys, visible and hidden recipients; senders: Sign/SignDetached/SigncryptSeal/Seal with recording long-term keys, all versions, lengths 0..3000 and 1 MiB+1. The recorded call sequence must equal the model's trace (coq/model/KeyTrace.v) and satisfy the predicate directly: every Unbox nonce is the V1 constant or 'saltpack_recipsb'+index, every Box message is 32 zero bytes, every signed string is a domain-separation string plus fixed-length hash material. Also headers naming unknown major versions under an all-admitting application validator (predicate only).",
 		gen: func(h *H) {
 			n := 300
 			if h.tier == "thorough" {
@@ -381,6 +394,22 @@ func init() {
 				}
 				h.tag("mut:" + mut)
 				h.Run(Case{Op: "trace_open", A: map[string]string{"vd": "any", "keys": ringKeysStr(keys), "senders": "all", "input": hx(input), "mut": mut}})
+			}
+			// headers naming a major version the library does not know, under an application validator that
+			// admits every version (the policy is the caller's): whatever the receiver then does with its
+			// long-term key must still use a saltpack payload-key nonce (stopping, even by a panic, is fine)
+			for _, mj := range []int{0, 3, 4, 9, 255} {
+				for _, hide := range []bool{false, true} {
+					rsk := h.randBoxSk()
+					pe := &refEnc{format: "saltpack", major: mj, minor: 0, mode: 0, senderSk: h.randBoxSk(), ephSk: h.randBoxSk(), payloadKey: h.rng.Bytes(32),
+						rcpts: []refRcpt{{pk: boxPk(rsk), hide: hide}}, chunks: [][]byte{[]byte("z")}}
+					var wire []byte
+					if guard(func() error { wire = pe.seal(); return nil }) != nil || wire == nil {
+						continue
+					}
+					h.tag("foreign-major-permissive-validator")
+					h.Run(Case{Op: "trace_open", A: map[string]string{"vd": "all", "keys": ringKeysStr([][]byte{rsk}), "senders": "all", "input": hx(wire), "mut": "foreign-major-" + strconv.Itoa(mj)}})
+				}
 			}
 			for i := 0; i < n/2; i++ {
 				p := h.makeScPair(1+h.rng.Intn(200), h.rng.Intn(200))
